@@ -11,8 +11,9 @@ the type (no wrap: each remainder lies between 0 and the dividend), so the fuel 
 model is never exhausted and the model's loop *is* the C++ `while` loop.
 
 `lcm_gcd_exact` computes `|x| / gcd · |y|` and is correct whenever `|x|` and `|y|` are representable
-(`lcm_tri_partial`); when `abs` of an operand overflows it returns that result code without storing
-anything (KF-C11-5, `C11.lcm_spec_fails`).
+(`lcm_tri_partial`); when `abs` of an operand overflows the lcm overflows too and `to` receives the outcome
+of that `abs` (`lcm_tri`; /repo 5d13b40 — before, the code was returned without storing anything: KF-C11-5,
+`C11.lcm_spec_before_fix_fails`).
 -/
 namespace PPLV.Checked
 open Result
@@ -234,5 +235,111 @@ theorem lcm_tri_partial {t : IntTy} {π : Policy} (w : t.WF π) (hl : t.LargerOK
       exact_mod_cast this
     rw [e] at key
     exact key
+
+theorem setPosOverflow_ne_eq (t : IntTy) (π : Policy) (z : Int) (dir : Dir) : (setPosOverflow t π z dir).2 ≠ V_EQ := by
+  unfold setPosOverflow
+  split
+  · show V_GT_SUP ≠ V_EQ; decide
+  · split
+    · show V_LT_PLUS_INFINITY ≠ V_EQ; decide
+    · show V_LT_PLUS_INFINITY.orUnrep ≠ V_EQ; decide
+
+/-- `abs` on a finite operand: exact, or the positive overflow of `-x` -/
+theorem abs_cases {t : IntTy} {π : Policy} (w : t.WF π) (hl : t.LargerOK) (hco : π.checkOverflow = true)
+    (dir : Dir) {to0 x : Int} (h0 : t.inRange to0) (hx : t.finite π x) :
+    (-x ≤ t.emax π ∧ abs t π to0 x dir = (if x < 0 then -x else x, V_EQ)) ∨
+    (t.emax π < -x ∧ abs t π to0 x dir = setPosOverflow t π to0 dir) := by
+  have hmm := IntTy.emin_le_emax w
+  rcases abs_tri w hl hco dir h0 hx with ⟨h, hf⟩ | ⟨h, _⟩ | ⟨h, ho⟩
+  · refine Or.inl ⟨?_, h⟩
+    have := hf.2
+    split at this <;> omega
+  · exfalso; split at h <;> omega
+  · refine Or.inr ⟨?_, ho⟩
+    have := hx.2
+    split at h <;> omega
+
+/-- when `|x|` exceeds the finite range so does `lcm(x, y)` for `y ≠ 0` -/
+theorem lcm_ge_abs_left {x y : Int} (hy : y ≠ 0) : -x ≤ (Int.lcm x y : Int) := by
+  by_cases hx : x = 0
+  · subst hx; simp
+  · have hpos : 0 < Nat.lcm x.natAbs y.natAbs := Nat.lcm_pos (Int.natAbs_pos.mpr hx) (Int.natAbs_pos.mpr hy)
+    have hle : x.natAbs ≤ Nat.lcm x.natAbs y.natAbs := Nat.le_of_dvd hpos (Nat.dvd_lcm_left _ _)
+    have : (Int.lcm x y : Int) = (Nat.lcm x.natAbs y.natAbs : Int) := rfl
+    rw [this]
+    omega
+
+theorem lcm_ge_abs_right {x y : Int} (hx : x ≠ 0) : -y ≤ (Int.lcm x y : Int) := by
+  rw [Int.lcm_comm]; exact lcm_ge_abs_left hx
+
+/-- **`lcm_gcd_exact`** (as repaired by /repo 5d13b40): `lcm(x, y)` stored exactly, or a true overflow report —
+also when `|x|` or `|y|` is not a value of the type -/
+theorem lcm_tri {t : IntTy} {π : Policy} (w : t.WF π) (hl : t.LargerOK) (hco : π.checkOverflow = true)
+    (dir : Dir) {to0 x y : Int} (h0 : t.inRange to0) (hx : t.finite π x) (hy : t.finite π y) :
+    ∃ z, t.inRange z ∧ Tri t π dir z (lcm t π to0 x y dir) (Int.lcm x y) := by
+  have hmm := IntTy.emin_le_emax w
+  have h00 : t.inRange 0 := IntTy.finite_inRange ⟨hmm.1, hmm.2⟩
+  by_cases hrep : -x ≤ t.emax π ∧ -y ≤ t.emax π
+  · exact lcm_tri_partial w hl hco dir hx hy hrep.1 hrep.2
+  · by_cases hz : (x == 0 || y == 0) = true
+    · unfold lcm
+      simp only [hz, if_true]
+      refine ⟨0, h00, ?_⟩
+      have : Int.lcm x y = 0 := by
+        simp only [Bool.or_eq_true, beq_iff_eq] at hz
+        rcases hz with h | h <;> simp [h]
+      rw [this]
+      exact tri_eq ⟨hmm.1, hmm.2⟩
+    · have hz' : (x == 0 || y == 0) = false := by simpa using hz
+      simp only [Bool.or_eq_false_iff, beq_eq_false_iff_ne] at hz'
+      obtain ⟨hx0, hy0⟩ := hz'
+      unfold lcm
+      simp only [hz, Bool.false_eq_true, if_false]
+      rcases abs_cases w hl hco dir h00 hx with ⟨hxr, e0⟩ | ⟨hxo, e0⟩
+      · -- |x| fits, |y| does not
+        have hyo : t.emax π < -y := by
+          by_contra hc; exact hrep ⟨hxr, by omega⟩
+        rcases abs_cases w hl hco dir h00 hy with ⟨hyr, _⟩ | ⟨_, e1⟩
+        · omega
+        · rcases abs_cases w hl hco dir h0 hy with ⟨hyr, _⟩ | ⟨_, e2⟩
+          · omega
+          · have hne := setPosOverflow_ne_eq t π 0 dir
+            rcases hp : setPosOverflow t π 0 dir with ⟨a1, r1⟩
+            rw [hp] at hne e1
+            have hb : (r1 != V_EQ) = true := by simpa using hne
+            simp only [e0, e1, e2, bne_self_eq_false, Bool.false_eq_true, if_false, hb, if_true]
+            exact ⟨to0, h0, tri_pos (by have := lcm_ge_abs_right (x := x) (y := y) hx0; omega)⟩
+      · rcases abs_cases w hl hco dir h0 hx with ⟨hxr, _⟩ | ⟨_, e2⟩
+        · omega
+        · have hne := setPosOverflow_ne_eq t π 0 dir
+          rcases hp : setPosOverflow t π 0 dir with ⟨a1, r1⟩
+          rw [hp] at hne e0
+          have hb : (r1 != V_EQ) = true := by simpa using hne
+          simp only [e0, e2, hb, if_true]
+          exact ⟨to0, h0, tri_pos (by have := lcm_ge_abs_left (x := x) (y := y) hy0; omega)⟩
+
+/-- the exact result of `lcm_ext` as an extended integer -/
+def lcmE : Ext Int → Ext Int → Ext Int
+  | .nan, _ => .nan | _, .nan => .nan
+  | .fin x, .fin y => .fin (Int.lcm x y)
+  | _, _ => .pinf
+
+theorem exactLcm_eq (a b : Ext Int) : exactLcm a b = Exact.ofExt (lcmE a b) := by
+  cases a <;> cases b <;> simp [exactLcm, lcmE, Exact.ofExt]
+
+theorem lcmExt_ok {t : IntTy} {π : Policy} (w : t.WF π) (hl : t.LargerOK) (hco : π.checkOverflow = true)
+    (dir : Dir) {to0 x y : Int} (h0 : t.inRange to0) (hx : t.inRange x) (hy : t.inRange y) :
+    OK t π dir (lcmExt t π to0 x y dir) (lcmE (t.denote π x) (t.denote π y)) := by
+  unfold lcmExt
+  rcases IntTy.denote_cases w hx with ⟨a, d⟩ | ⟨a, b, c, d⟩ | ⟨a, b, c, d⟩ | ⟨a, b, c, d, f⟩ <;>
+  rcases IntTy.denote_cases w hy with ⟨a', d'⟩ | ⟨a', b', c', d'⟩ | ⟨a', b', c', d'⟩ | ⟨a', b', c', d', f'⟩ <;>
+  simp only [a, a', d, d', lcmE, Bool.or_true, Bool.true_or, Bool.or_false, Bool.or_self, Bool.false_eq_true, if_true, if_false]
+  all_goals first
+    | exact okNanSpecial w dir h0
+    | (simp only [*, Bool.or_true, Bool.true_or, Bool.or_false, Bool.or_self, Bool.false_eq_true, if_true, if_false]
+       first
+        | exact okPinf w dir h0
+        | (obtain ⟨z, hz, htri⟩ := lcm_tri w hl hco dir h0 f f'
+           exact tri_ok w hz htri))
 
 end PPLV.Checked
